@@ -72,9 +72,9 @@ func (l *AddressList) addAddress(network string, address string) {
 // it will add the address to the list
 func (l *AddressList) ResolveAndAddAddress(address string) {
 	switch {
-	case strings.HasPrefix("tcp://", address):
+	case strings.HasPrefix(address, "tcp://"):
 		l.addAddress("tcp", address[6:])
-	case strings.HasPrefix("udp://", address):
+	case strings.HasPrefix(address, "udp://"):
 		l.addAddress("udp", address[6:])
 	default:
 		l.addAddress("tcp", address)
